@@ -348,34 +348,39 @@ def check_parse_order(run, F):
     env = {}
     for i_, p_ in enumerate(b for q in fn.params for b in _pat_binds(q)):
         env[p_['local']] = 'p%d' % i_
-    tables = [('explicit format', dtree.table(root, env))]
+    # every place a parser result is consumed: the function's own paths, loop bodies and closure
+    # bodies (`for rule in RULES { .. }`, `RULES.iter().find_map(|rule| ..)`, a counter loop)
+    tables = [('function paths', dtree.table(root, env))]
     for x in walk(root):
-        if x.get('k') == 'For':
-            tables.append(('format list', dtree.body_table(root, x, env)))
-    n = 0
-    DT = re.compile(r'(!?)NaiveDateTime::parse_from_str\((.*)\) is (?:\w+::)*Ok\(_\)')
-    D = re.compile(r'(!?)NaiveDate::parse_from_str\((.*)\) is (?:\w+::)*Ok\(_\)')
+        if x.get('k') in ('For', 'While'):
+            tables.append(('loop body', dtree.body_table(root, x, env)))
+        elif x.get('k') == 'Closure':
+            tables.append(('closure body', dtree.closure_table(root, x, env)))
+    P = re.compile(r'(!?)(NaiveDateTime|NaiveDate)::parse_from_str\((.*)\) is (?:\w+::)*(Ok|Err)\(_\)')
+    bad = []
+    rows = 0
+    sites = set()
     for name, t in tables:
-        bad = []
-        rows = 0
         for cs, leaf, ef in t:
-            dts = {(m.group(1), m.group(2)) for c in cs for m in [DT.fullmatch(c)] if m}
-            ds = {(m.group(1), m.group(2)) for c in cs for m in [D.fullmatch(c)] if m}
-            for neg, args_ in ds:
-                if neg == '':
-                    rows += 1
-                    if ('!', args_) not in dts:
-                        bad.append('date-only result without a failed date-time parse of (%s)' % args_)
-            for neg, args_ in dts:
-                if neg == '':
-                    rows += 1
-                    if ('!', args_) in ds:
-                        bad.append('date-time parse of (%s) attempted only after the date-only parse failed' % args_)
-        n += 1
-        run.ob('PARSE.order', fn, name, rows >= 2 and not bad, fn.loc(),
-               '%d parser-success row(s); %s' % (rows, '; '.join(bad) if bad else 'date-time reading first'))
-    run.floor('PARSE.order', 'parse branches of DateTime::parse', n, 2)
-    return n
+            st = {}
+            for c in cs:
+                m = P.fullmatch(c)
+                if m:
+                    st[(m.group(2), m.group(3))] = (m.group(1) == '') == (m.group(4) == 'Ok')
+            for (who, args_), okp in st.items():
+                if not okp:
+                    continue
+                rows += 1
+                sites.add((who, args_))
+                if who == 'NaiveDate' and st.get(('NaiveDateTime', args_)) is not False:
+                    bad.append('%s: date-only result without a failed date-time parse of (%s)' % (name, args_))
+                if who == 'NaiveDateTime' and st.get(('NaiveDate', args_)) is False:
+                    bad.append('%s: date-time parse of (%s) attempted only after the date-only parse failed' % (name, args_))
+    # both parsers are consulted for the explicit format and for the listed formats
+    run.ob('PARSE.order', fn, 'date-time reading before date-only reading', len(sites) >= 4 and not bad, fn.loc(),
+           '%d parser-success row(s) over %d (parser, arguments) site(s); %s'
+           % (rows, len(sites), '; '.join(sorted(set(bad))) if bad else 'date-time reading first everywhere'))
+    return 1
 
 
 def check_mirrors(run, F):
